@@ -1,8 +1,9 @@
 """C07  A failing or slow host never harms the others; timeouts bound the run.
 
-proof:          lean/PdshVerif/Props/C07.lean (timed extension of the fan-out LTS: clock, scripted hosts, watchdog;
-                projection onto the Fan LTS, locality of a host's fate, healthy hosts complete, both deadlines,
-                reporting, bounded virtual time)
+proof:          lean/PdshVerif/Props/C07.lean (timed extension of the fan-out LTS in its general form Dsh/FanG.lean --
+                every signalling discipline --: clock, scripted hosts, watchdog; projection onto the fan-out LTS,
+                locality of a host's fate, healthy hosts complete, both deadlines, reporting, bounded virtual time;
+                section K: -k fail-fast, Dsh/TimedK.lean)
 correspondence: the unmodified dsh.c under the controlled scheduler with virtual clock and scripted transport
                 (harness/sched, `reltime`, maximal progress) vs the same LTS, compiled (`pdshmodel timed`): every
                 event enabled, threadcount / clock / enabled sets / watchdog hits / per-host bytes, closes and
@@ -45,7 +46,9 @@ MANIFEST = dict(
          "the model (rcmd_destroy returns when the scripted command is gone: exited by itself, or killed by the "
          "forwarded SIGTERM unless it ignores it; the slot is released only then); a command that never goes makes "
          "dsh() wait for ever — theorem immortal_never_returns, finding F07-TEARDOWN-WAIT, replayed on the real "
-         "`pdsh -R exec -u 1`; -k fail-fast, DNS and real signal delivery are outside the model")
+         "`pdsh -R exec -u 1`; -k fail-fast is Dsh/TimedK.lean (section K of the theorems, pinned runs through the "
+         "acceptor); the pdcp worker's connect phase is under the same acceptor; DNS and real signal delivery are "
+         "outside the model")
 
 
 def gen_random(rng, nmax):
@@ -285,12 +288,12 @@ def run(ctx):
                      "the transport is scripted: connect result after d seconds or never, per-stream items at fixed "
                      "delays after the connect, the command's own life time, what SIGTERM does to it (dies after a "
                      "grace period / ignores it); rcmd_destroy returns when the command is gone (exec / ssh transports: "
-                     "waitpid); no -k",
+                     "waitpid); -k only in the pinned fail-fast scenarios",
                      "constructs of the checked tree, detected by behaviour (wait-for-room, worker tests the command "
                      "timeout itself, dsh() stops the watchdog before returning): %s; the theorems hold for every "
                      "combination" % (variant,)],
         trusted_base=["Lean 4.33 kernel", "axioms: propext, Classical.choice, Quot.sound at most (audited per theorem)",
-                      "hand-written LTS Dsh/Timed.lean (over Dsh/Fan.lean) tied to dsh.c by trace acceptance",
+                      "hand-written LTS Dsh/Timed.lean + Dsh/TimedK.lean (over Dsh/FanG.lean) tied to dsh.c by trace acceptance",
                       "Gen/Dsh.lean regenerated from /repo (WDOG_POLL)",
                       "harness/sched/* (scheduler, virtual clock, wrappers, stub transport below the real rcmd.c), "
                       "vlib/sched.py, vlib/timedcheck.py, gcc, ASan/UBSan"],
